@@ -155,7 +155,7 @@ def fn_breakdown(js):
     return res
 
 
-def process_unit(name, canary):
+def process_unit(name, canary, bdir):
     """extract + verify one unit. returns UnitResult"""
     ur = UnitResult()
     ur.name = name
@@ -180,18 +180,18 @@ def process_unit(name, canary):
     ur.contracted = contracted
     ur.rewrites = ex.rewrites
     ur.fn_hashes = {q: hashlib.sha256(t.encode()).hexdigest() for q, t in ex.fn_texts.items()}
-    os.makedirs(BUILD, exist_ok=True)
-    path = os.path.join(BUILD, name + '.rs')
+    os.makedirs(bdir, exist_ok=True)
+    path = os.path.join(bdir, name + '.rs')
     open(path, 'w').write(text)
-    json.dump([[list(o), i] for (o, i) in origins], open(os.path.join(BUILD, name + '.origins.json'), 'w'))
-    json.dump(ex.rewrites, open(os.path.join(BUILD, name + '.rewrites.json'), 'w'), indent=1)
+    json.dump([[list(o), i] for (o, i) in origins], open(os.path.join(bdir, name + '.origins.json'), 'w'))
+    json.dump(ex.rewrites, open(os.path.join(bdir, name + '.rewrites.json'), 'w'), indent=1)
     ur.path = path
     ur.scan = scan_assumptions(text)
     cfuts = []
     if canary and contracted:
         try:
             ctext, corigins, cex, _ = extract.build_unit(unit, REPO, udir, canary=True)
-            cpath = os.path.join(BUILD, name + '_canary.rs')
+            cpath = os.path.join(bdir, name + '_canary.rs')
             open(cpath, 'w').write(ctext)
             for f in contracted:
                 cfuts.append((f, CANARY_POOL.submit(run_verus, cpath, externs, ('--verify-root', '--verify-function', f.qual + '__canary', '--num-threads', '1'), '1', CANARY_RLIMIT)))
@@ -359,7 +359,7 @@ def main():
     units = pdef['units']
     results = []
     with cf.ThreadPoolExecutor(max_workers=max(1, len(units))) as pool:
-        futs = [pool.submit(process_unit, u, True) for u in units]
+        futs = [pool.submit(process_unit, u, True, os.path.join(BUILD, prop)) for u in units]
         for f in futs:
             results.append(f.result())
     extra = []
